@@ -42,6 +42,14 @@ def _cmp_key_between(form, a_keys: set[str], b_pred) -> Optional[tuple[str, bool
 
 
 def check(ctx: Ctx):
+    check_merge(ctx)
+    # the scores the merge decisions compare are those of the pair's own arrays (R03.7)
+    from . import c03
+
+    c03._guarded(ctx, "R03.7", c03.check_candidate_call)
+
+
+def check_merge(ctx: Ctx):
     prog = ctx.prog
     cls, f = merge_matcher(ctx)
     add = add_entry_func(ctx)
